@@ -42,10 +42,13 @@ def _child_verify(i):
         "vacuity": res.vacuity, "stats": res.stats, "obligations": [], "assumes": c.assumes, "crash": False,
     }
     eng0 = getattr(res, "engine", None)
-    if eng0 is not None:
+    if eng0 is not None and eng0.entry_state is not None:
         ghost_kinds = {g: kind_json(v.kind) for g, v in eng0.entry_state.ghost.items() if hasattr(v, "kind") and v.kind.smt}
         out["fuzz_job"] = fuzz_job(c, res.fs, schema.SCHEMA, eng0.accessed_param_keys, ghost_kinds, seed, 20,
                                    numeric_keys=eng0.numeric_param_keys)
+    else:
+        # the engine gave up: parameter keys are harvested from the string literals of the source instead
+        out["fuzz_job"] = fuzz_job(c, res.fs, schema.SCHEMA, set(source_literals(res.fs, c)), {}, seed, 20)
     for o in res.obligations:
         j = o.to_json()
         if o.status in ("failed",) and o.model is not None:
@@ -143,6 +146,7 @@ def fuzz_job(c, fs, schema, param_keys, ghost_kinds, seed, budget_s, numeric_key
         "schema": schema_json(schema), "literals": source_literals(fs, c), "param_keys": sorted(param_keys),
         "stubs": {k: [v[1], kind_json(v[2]), v[3]] for k, v in c.stubs.items()},
         "ghost": ghost_kinds, "seed": seed, "budget_s": budget_s, "numeric_keys": sorted(numeric_keys),
+        "seams": list(getattr(c, "native_seams", [])),
     }
 
 
@@ -258,8 +262,14 @@ class PropertyRun:
                 self.errors.append(f"{r['contract']}: {r['error']}")
                 continue
             if r["error"]:
-                # outside the subset / spec error: obligations of this function are not decided by E1
-                self.undecided.append({"obligation": r["contract"] + ".*", "reason": r["error"]})
+                # outside the subset / spec error: obligations of this function are not decided by E1;
+                # the bounded native search on the same contract stands in
+                fr = self._fuzzed.get(r["contract"])
+                if fr and fr.get("found"):
+                    self.report_native_counterexample(r, fr, r["contract"] + ".*")
+                else:
+                    self.undecided.append({"obligation": r["contract"] + ".*", "reason": r["error"],
+                                           "native_search": (fr or {}).get("stats")})
                 continue
             for o in r["obligations"]:
                 rec = {k: o[k] for k in ("name", "status", "ms", "kind", "line", "backend")}
@@ -267,7 +277,11 @@ class PropertyRun:
                 if o["status"] == "proved":
                     continue
                 if o["status"] == "vacuous":
-                    self.errors.append(f"{o['name']}: vacuous ({o.get('detail')})")
+                    fr = self._fuzzed.get(r["contract"])
+                    if fr and fr.get("found"):
+                        self.report_native_counterexample(r, fr, o["name"])
+                    else:
+                        self.undecided.append({"obligation": o["name"], "reason": f"vacuous ({o.get('detail')})"})
                     continue
                 path = os.path.join(ROOT, "replays", self.pid, o["name"].replace("/", "_").replace(" ", "_") + ".json")
                 if o["status"] == "unknown":
@@ -317,13 +331,26 @@ class PropertyRun:
                     self.undecided.append({"obligation": o["name"], "reason": "counter-model not confirmed natively",
                                            "replay": verdict})
 
+    def report_native_counterexample(self, r, fr, obligation):
+        w = fr["witness"]
+        w["note"] = ("found by bounded native search on the real function (the deductive engine could not decide "
+                     "the obligation on this source); failed obligation: " + obligation)
+        w["failed_obligation"] = obligation
+        path = os.path.join(ROOT, "replays", self.pid, r["contract"].replace("/", "_").replace(" ", "_") + ".counterexample.json")
+        os.makedirs(os.path.dirname(path), exist_ok=True)
+        with open(path, "w") as f:
+            json.dump(w, f, indent=1, default=str)
+        if not any(v[1] == path for v in self.violations):
+            self.violations.append((obligation, path, ""))
+
     def prefuzz(self, results, known_ids):
         from concurrent.futures import ThreadPoolExecutor
         todo = []
         for r in results:
-            if r.get("crash") or r["error"] or not r.get("fuzz_job"):
+            if r.get("crash") or not r.get("fuzz_job"):
                 continue
-            if any(o["status"] == "failed" and o["name"] not in known_ids for o in r["obligations"]):
+            if r["error"] or any(o["status"] in ("failed", "vacuous", "unknown") and o["name"] not in known_ids
+                                 for o in r["obligations"]):
                 todo.append(r)
 
         # at most 4 contracts are searched (distinct target functions first), each with several seeds in parallel
